@@ -37,6 +37,7 @@ META["text"] += ' R6 also: the search ranges over the contest and winner handed 
 META["text"] += ' R3 also: the difficulty functions shipped with the search are finite for every strict win (inf only under an exact sign test of the margin, never under a tolerance).'
 META["text"] += ' R2 also: the RAIRE Contest stores its constructor arguments unconverted. R6 also: the harvest recognises duplicates by same_as and subsumes only.'
 META["text"] += " (R8, N, frame condition on arguments) the search scores assertions on the caller's ballots and leaves them as they were: every function in scope changes the objects it is handed only in the ways confirmed for it (aud.ARG_EFFECTS); references are followed through aliases, elements, attributes, loop variables, .get/.items/.values and np.asarray, resolved by the bindings that reach the use."
+META["text"] += ' (R9, N) raire_utils.Contest stores its constructor arguments verbatim and nothing derived from them (a cached candidate count goes stale when the caller appends a candidate or re-uses the object, and the search then treats shorter elimination orders as complete).'
 
 
 def r3_estimates(chk):
@@ -74,6 +75,7 @@ def r3_estimates(chk):
 
 
 def run(chk):
+    r9_contest_fields(chk)
     from .. import aud as _aud8
     _aud8.argument_effects(chk, 'C04.R8', 'shangrla/raire/raire_utils.py', "the search scores assertions on the caller's ballots and leaves them as they were", only=None)
     _aud8.argument_effects(chk, 'C04.R8', 'shangrla/raire/raire.py', "the search scores assertions on the caller's ballots and leaves them as they were", only=None)
@@ -806,3 +808,25 @@ def r6(chk):
     chk.ob("C04.R6", f"{RU}:NENAssertion.subsumes", "covers-every-tail-of-the-other", ok and guard_neb,
            "an NEN assertion subsumes another only if *every* tail the other disposes of ends in a tail this one disposes of (and never "
            "an NEB assertion)", node=ns, strength="N", **detail)
+
+
+def r9_contest_fields(chk):
+    """The search functions take the number of candidates, the winner and the ballot total from the Contest they are handed.  Its
+    constructor copies its arguments verbatim into attributes; a *derived* value stored next to them (a count of the candidates,
+    a set of them, a winner index) is a second copy that nothing keeps equal to its source once the caller appends a candidate
+    or re-uses the object -- and the search would then bound elimination orders by the stale copy."""
+    fd = chk.idx.func(RU, "Contest.__init__")
+    params = {a.arg for a in fd.args.args + fd.args.kwonlyargs} - {"self"}
+    n = 0
+    for nd in walk_local(fd):
+        tg = nd.targets if isinstance(nd, ast.Assign) else [nd.target] if isinstance(nd, (ast.AnnAssign, ast.AugAssign)) else []
+        for t in tg:
+            if isinstance(t, ast.Attribute) and norm(t.value) == "self":
+                n += 1
+                v = getattr(nd, "value", None)
+                ok = isinstance(nd, (ast.Assign, ast.AnnAssign)) and isinstance(v, ast.Name) and v.id in params
+                chk.ob("C04.R9", f"{RU}:Contest.__init__", f"verbatim-field[{t.attr}]", ok,
+                       "the RAIRE Contest stores its constructor arguments verbatim and nothing derived from them: the search reads "
+                       "len(contest.candidates), contest.winner and contest.tot_ballots at the time it runs", node=nd, strength="N",
+                       **({} if ok else {"stored": norm(nd)[:100]}))
+    chk.need("C04.R9", n, 4, "attribute stores in raire_utils.Contest.__init__")
